@@ -724,4 +724,115 @@ class C10(Prop):
         return "bytes=%s" % ("1-8" if n <= 8 else ("9-32" if n <= 32 else "33+"))
 
 
-PROPS = {p.id: p for p in [C06(), C19(), C11(), C16(), C13(), C10()]}
+# ---------------------------------------------------------------------------
+# C15: hygiene of generated names, checked on the implementation's own output
+# ---------------------------------------------------------------------------
+_RESERVED_CACHE = {}
+
+
+def _reserved(target):
+    """Reserved names of a target, read from the exporter's source by a regex of its own."""
+    crate = "msl" if target.startswith("m") or target == "Msl" else "hlsl"
+    if crate not in _RESERVED_CACHE:
+        import os
+        src = open(os.path.join(os.environ.get("RSSL_REPO", "/repo"), crate, "src", "names.rs")).read()
+        consts = dict(re.findall(r'pub const (\w+): &str = "([^"]*)";', src))
+        body = src[src.index("RESERVED_NAMES"):]
+        body = body[body.index("&[", body.index("=")):body.index("];")]
+        names = set(re.findall(r'"([^"]*)"', body))
+        for c, v in consts.items():
+            if re.search(r"\b%s\b" % c, body):
+                names.add(v)
+        _RESERVED_CACHE[crate] = names
+    return _RESERVED_CACHE[crate]
+
+
+_UNMANAGED_POSITIONS = {"member", "enumvalue", "cbuffer", "cbuffermember", "templateparam"}
+
+
+class C15(Prop):
+    id = "C15"
+    gens = ["GenNames"]
+    header = 0
+    n_quick = 3000
+    n_thorough = 40000
+    design_ref = "DESIGN.md §4 C15"
+    assumptions = [
+        "model: coq/model/NameGen.v mirrors NameMap::build (hand-written; tied by correspondence on every symbol's generated name); reserved lists regenerated from hlsl/src/names.rs and msl/src/names.rs, the shape of the suffix format / sort / kept-name logic is checked by the translator",
+        "the symbol table of each case is serialised from the typed module in the order build() visits it",
+        "what is a reserved word of the target = the exporter's RESERVED_NAMES (after the repairs: SamplerState typo, Metal address-space keywords)",
+        "names the generator never sees (struct members, enum values, cbuffer names and members, template parameters) are outside the model; they are probed on the emitted text and recorded as known findings",
+        "renaming equivariance and 'every use refers to the same entity' are not proved; they are exercised only through C04's recompilation fixpoint",
+    ]
+
+    def known_class(self, case, impl, model):
+        if case.startswith("R ") and impl.startswith("LEAK"):
+            pos = case.split()[2]
+            if pos in _UNMANAGED_POSITIONS:
+                return "reserved-name-kept-in-" + pos
+        return None
+
+    def comparable(self, case, impl, model):
+        return not (impl.startswith("REJECT") or impl.startswith("IR-CHANGED") or impl.startswith("BAD")
+                    or (case.startswith("R ") and impl.startswith("PANIC")))
+
+    def oracle(self, case, impl, model=None):
+        if case.startswith("R "):
+            if impl.startswith("LEAK"):
+                w = case.split()
+                return "reserved name %r is emitted as the name of a %s on %s" % (w[3], w[2], w[1])
+            return None
+        if not self.comparable(case, impl, model):
+            return None
+        if impl.startswith("PANIC"):
+            return "name generation aborted"
+        head = case.split(" # ")[0].split()
+        target, w = head[0], head[1:]
+        reserved = _reserved(target)
+        decls, i = {}, 0
+        scopes = {}
+        while i < len(w):
+            if w[i] == "L":
+                decls[("L", w[i + 1])] = (None, w[i + 2])
+                i += 3
+            else:
+                kind = "NSEGF".index(w[i])
+                decls[(str(kind), w[i + 1])] = (w[i + 2], w[i + 3])
+                scopes.setdefault(w[i + 2], {}).setdefault(w[i + 3], []).append((str(kind), w[i + 1]))
+                i += 4
+        got = {}
+        for t in impl.split():
+            m = re.match(r"^(\w+):(\d+)=(.*)$", t)
+            if not m:
+                return "unreadable result %r" % t
+            got[(m.group(1), m.group(2))] = m.group(3)
+        for key in decls:
+            if key not in got:
+                return "symbol %s:%s received no name" % key
+        for sc, names in scopes.items():
+            seen = {}
+            for name, syms in names.items():
+                for sym in syms:
+                    g = got[sym]
+                    if g in reserved:
+                        return "symbol %s:%s is emitted under the reserved name %r" % (sym[0], sym[1], g)
+                    if g in seen:
+                        return "two symbols of one scope share the generated name %r" % g
+                    seen[g] = sym
+                if len(syms) == 1 and name not in reserved and got[syms[0]] != name:
+                    return "name %r is unique in its scope and not reserved but was renamed to %r" % (name, got[syms[0]])
+        for key, (_, name) in decls.items():
+            if key[0] == "L" and got[key] in reserved:
+                return "local %s is emitted under the reserved name %r" % (key[1], got[key])
+        return None
+
+    def nontrivial(self, case, impl):
+        return not case.startswith("R ") and re.search(r"_\d+\b", impl) is not None
+
+    def kind(self, case):
+        if case.startswith("R "):
+            return "probe " + case.split()[2]
+        return "table " + case[0]
+
+
+PROPS = {p.id: p for p in [C06(), C19(), C11(), C16(), C13(), C10(), C15()]}
